@@ -22,11 +22,18 @@ Inductive law :=
 | LWeldUnweld (a : N) (dv : Z).    (* weld m and weld (unweld m): same key-rounded corner positions *)
 
 (* generators with an index model (Mesh/GenIdx.v) *)
-Inductive gdesc := GFan (n : nat) | GTube (sides points : nat).
+Inductive gdesc := GFan (n : nat) | GTube (sides points : nat) | GQuad | GRibbon (points : nat)
+                 | GShape (sides points : nat) (closed : bool).
 Definition gen_idx (g : gdesc) (fl : list bool) : list nat :=
-  match g with GFan n => fan_idx n | GTube s p => tube_idx (flip_of fl s) s p end.
+  match g with
+  | GFan n => fan_idx n | GTube s p => tube_idx (flip_of fl s) s p
+  | GQuad => quad_idx | GRibbon p => ribbon_idx p | GShape s p c => shape_idx s p c
+  end.
 Definition gen_nverts (g : gdesc) : nat :=
-  match g with GFan n => fan_nverts n | GTube s p => tube_nverts s p end.
+  match g with
+  | GFan n => fan_nverts n | GTube s p => tube_nverts s p
+  | GQuad => quad_nverts | GRibbon p => ribbon_nverts p | GShape s p _ => shape_nverts s p
+  end.
 
 Inductive case :=
 | COp (o : op) (ins : list mesh) (out : res)
